@@ -12,6 +12,8 @@ import time
 
 VERIF = os.path.dirname(os.path.dirname(os.path.abspath(__file__)))
 REPO = os.environ.get('VERIF_REPO', '/repo')
+# trial runs against a scratch copy (seeded changes) write their evidence and replays elsewhere
+OUT = os.environ.get('VERIF_EVIDENCE_DIR') or VERIF
 LEAN = os.path.join(VERIF, 'lean')
 DRIVER = os.path.join(LEAN, '.lake', 'build', 'bin', 'driver')
 ALLOWED_AXIOMS = {'propext', 'Classical.choice', 'Quot.sound'}
@@ -261,8 +263,8 @@ class Report(object):
     # -- finish
     def finish(self):
         wall = time.time() - self.t0
-        os.makedirs(os.path.join(VERIF, 'evidence'), exist_ok=True)
-        os.makedirs(os.path.join(VERIF, 'replays'), exist_ok=True)
+        os.makedirs(os.path.join(OUT, 'evidence'), exist_ok=True)
+        os.makedirs(os.path.join(OUT, 'replays'), exist_ok=True)
         lines = []
         rc = 0
         for sig, (what, replay) in sorted(self.known_seen.items()):
@@ -306,7 +308,7 @@ class Report(object):
         cov.update(self.extra)
         ev = {'property_id': self.prop, 'tier': self.tier, 'seed': self.seed, 'level': self.level,
               'coverage': cov, 'assumptions': self.assumptions, 'wall_s': round(wall, 2), 'violations': violations}
-        with open(os.path.join(VERIF, 'evidence', self.prop + '.json'), 'w') as fh:
+        with open(os.path.join(OUT, 'evidence', self.prop + '.json'), 'w') as fh:
             json.dump(ev, fh, indent=1, sort_keys=True, default=str)
         for l in lines:
             print(l)
@@ -319,7 +321,7 @@ class Report(object):
         payload = dict(payload)
         payload.update({'property': self.prop, 'seed': self.seed, 'tier': self.tier, 'signature': sig})
         h = hashlib.sha1(json.dumps(payload, sort_keys=True, default=str).encode()).hexdigest()[:10]
-        path = os.path.join(VERIF, 'replays', '%s-%s.json' % (self.prop, h))
+        path = os.path.join(OUT, 'replays', '%s-%s.json' % (self.prop, h))
         with open(path, 'w') as fh:
             json.dump(payload, fh, indent=1, sort_keys=True, default=str)
         return os.path.relpath(path, VERIF)
